@@ -445,3 +445,21 @@ pub fn materialise_set(c: &SetCase) -> (Vec<Vec<u8>>, Vec<(String, Vec<Vec<u8>>)
     }
     (anc, out)
 }
+
+/// related genomes without repeats (random ancestors, k >= 11): SNPs, small indels, rc, substrings
+pub fn clean_set_strategy(min_samples: usize, max_samples: usize) -> BoxedStrategy<SetCase> {
+    prop_oneof![3 => (3usize..30).prop_map(|i| 5 + 2 * i), 2 => prop::sample::select(vec![11usize, 15, 31, 33, 35, 63])]
+        .prop_flat_map(move |k| {
+            let anc = vec(
+                vec(0u8..4, (k + 5)..(4 * k + 30)).prop_map(|v| Rec { ops: vec![SeqOp::Rand(v)], lower: vec![], force_len: None, n_from_end: None }),
+                1..3,
+            );
+            let m = (any::<u16>(), prop_oneof![6 => Just(0u8), 1 => Just(1u8), 1 => Just(2u8)], 0u8..4).prop_map(|(pos, kind, base)| Mut { pos, kind, base });
+            let part = (any::<u16>(), vec(m, 0..4), any::<bool>(), prop_oneof![4 => Just(None), 1 => (any::<u16>(), any::<u16>()).prop_map(Some)])
+                .prop_map(|(src, muts, rc, sub)| Part::Derived { src, muts, rc, sub });
+            let sample = prop_oneof![5 => vec(part.clone(), 1..=1), 1 => vec(part, 2..=2)].prop_map(|parts| SampleScript { parts });
+            (Just(k), prop::bool::weighted(0.7), anc, vec(sample, min_samples..=max_samples))
+        })
+        .prop_map(|(k, rc, anc, samples)| SetCase { k, rc, anc, samples })
+        .boxed()
+}
